@@ -185,8 +185,10 @@ let drv_c19 args =
   let nth i = List.nth !sessions i in
   let result = ref None in
   let enc f = match encode f with Some e -> e | None -> failwith "encode" in
+  let draws = ref (find_draws args) in
+  let next_draws () = match !draws with g :: r -> draws := r; g | [] -> [] in
   let burst (s : c19sess) (f : frame) : string =
-    let (s', r) = sess_write s.cs [] (enc f) in
+    let (s', r) = sess_write s.cs (next_draws ()) (enc f) in
     s.cs <- s';
     match r with
     | Some (Writes ws) ->
@@ -195,7 +197,7 @@ let drv_c19 args =
     | Some Crash -> "PANIC"
     | None -> "ok - - 0" in
   List.iter (fun op ->
-      if !result <> None then ()
+      if !result <> None || (String.length op >= 6 && String.sub op 0 6 = "draws=") then ()
       else if op = "D" then begin
         let (_, p') = proc_default !p in p := p'; Buffer.add_string out "D "
       end else if op = "Q" then begin
